@@ -81,20 +81,21 @@ func (m *sessionManager) setRaw(c fiber.Ctx, key string, raw []byte, exp time.Du
 }
 
 // delete token from session
-func (m *sessionManager) delRaw(c fiber.Ctx) {
+func (m *sessionManager) delRaw(c fiber.Ctx) error {
 	sess := session.FromContext(c)
 	if sess != nil {
 		sess.Delete(sessionKey)
-	} else {
-		// Try to get the session from the store
-		storeSess, err := m.session.Get(c)
-		if err != nil {
-			// Handle error
-			return
-		}
-		storeSess.Delete(sessionKey)
-		if err := storeSess.Save(); err != nil {
-			log.Warn("csrf: failed to save session: ", err)
-		}
+		return nil
 	}
+	// Try to get the session from the store
+	storeSess, err := m.session.Get(c)
+	if err != nil {
+		return err //nolint:wrapcheck // the store's error is the caller's error
+	}
+	storeSess.Delete(sessionKey)
+	if err := storeSess.Save(); err != nil {
+		log.Warn("csrf: failed to save session: ", err)
+		return err //nolint:wrapcheck // the store's error is the caller's error
+	}
+	return nil
 }
